@@ -5,7 +5,7 @@ from ..framework import rule
 from ..astutil import dotted, call_name, call_recv, norm, walk_local, unparse, ancestors
 from .. import q
 from .common import assigned_value, kw, arg, enclosing_for
-from . import c08, c09   # C08.R3 (dependency recording) and C09.R2 are listed for C02 too
+from . import c08, c09, c07   # C08.R3, C09.R2 and C07.R2 (instances discarded on member edits) are listed for C02 too
 
 META = {
     "explanation": (
